@@ -14,7 +14,6 @@ pub(crate) use properties::{Properties, SharedProperties};
 pub(crate) use property::Property;
 use std::collections::HashMap;
 
-use std::cmp::Ordering;
 
 #[derive(Debug)]
 #[cfg_attr(feature = "explorable_serde", derive(serde::Serialize))]
@@ -135,50 +134,55 @@ impl Parsable for Layout {
             let mut variants_map = HashMap::new();
             let mut variant_def = Vec::new();
             let mut variant_name: Option<SmallString> = None;
+            // A variant starts at its VariantId and runs until the next VariantId (or the end):
+            // properties taking no room in the entry (default values) may follow the last sized one.
             for raw_property in property_iter {
-                if !raw_property.is_variant_id() && variant_name.is_none() {
+                if raw_property.is_variant_id() {
+                    if let Some(name) = variant_name.take() {
+                        if variant_size != entry_size - common_size {
+                            return Err(format_error!(
+                                &format!(
+                                    "Sum of variant size ({common_size} + {variant_size}) must be equal to the entry size ({entry_size})"
+                                ),
+                                parser
+                            ));
+                        }
+                        variants
+                            .push(Properties::new(common_size, std::mem::take(&mut variant_def)).into());
+                        variants_map.insert(name, variants.len() as u8 - 1);
+                        variant_size = 0;
+                    }
+                    variant_name = Some(raw_property.name);
+                    continue;
+                }
+                if variant_name.is_none() {
                     return Err(format_error!(
                         "Variant definition must start with a VariantId.",
                         parser
                     ));
                 }
-                if raw_property.is_variant_id() && variant_name.is_some() {
+                variant_size += raw_property.size;
+                variant_def.push(raw_property);
+                if variant_size > entry_size - common_size {
                     return Err(format_error!(
-                        "VariantId cannot be in the middle of a variant definition.",
+                        &format!(
+                            "Sum of variant size ({common_size} + {variant_size}) cannot exceed the entry size ({entry_size})"
+                        ),
                         parser
                     ));
                 }
-                if raw_property.is_variant_id() {
-                    // This is a special property
-                    variant_name = Some(raw_property.name);
-                    continue;
-                }
-                variant_size += raw_property.size;
-                variant_def.push(raw_property);
-                match variant_size.cmp(&(entry_size - common_size)) {
-                    Ordering::Greater => {
-                        return Err(format_error!(
-                            &format!(
-                                "Sum of variant size ({common_size} + {variant_size}) cannot exceed the entry size ({entry_size})"
-                            ),
-                            parser
-                        ))
-                    }
-                    Ordering::Equal => {
-                        variants.push(Properties::new(common_size, variant_def).into());
-                        variants_map.insert(variant_name.unwrap(), variants.len() as u8 - 1);
-                        variant_def = Vec::new();
-                        variant_size = 0;
-                        variant_name = None;
-                    }
-                    Ordering::Less => {
-                        /* Noting to do */
-                        continue;
-                    }
-                }
             }
-            if !variant_def.is_empty() {
-                return Err(format_error!("We cannot have left over variant definiton."));
+            if let Some(name) = variant_name.take() {
+                if variant_size != entry_size - common_size {
+                    return Err(format_error!(
+                        &format!(
+                            "Sum of variant size ({common_size} + {variant_size}) must be equal to the entry size ({entry_size})"
+                        ),
+                        parser
+                    ));
+                }
+                variants.push(Properties::new(common_size, std::mem::take(&mut variant_def)).into());
+                variants_map.insert(name, variants.len() as u8 - 1);
             }
             if variants.len() != variant_count.into_usize() {
                 return Err(format_error!(
